@@ -10,6 +10,13 @@ import warnings
 def main(argv):
     prop, path = argv
     warnings.filterwarnings("ignore")
+    try:  # the same address space ceiling as a shard (see vlib/shard.py)
+        import resource
+
+        lim = int(os.environ.get("VERIF_SHARD_AS_GB", "12")) << 30
+        resource.setrlimit(resource.RLIMIT_AS, (lim, lim))
+    except Exception:  # noqa
+        pass
     from . import harness
 
     harness.assert_repo_import()
